@@ -1004,6 +1004,60 @@ pub fn generate(seed: u64, knobs: &Knobs) -> C10Scenario {
                     path: world.sources[i].path.clone(),
                 });
             }
+            97 => {
+                // a module outside the input that nothing required at start-up: created,
+                // required by an edit of a source, processed, then edited (the watcher has
+                // to extend its set of extra watched files after *every* pass)
+                if world.config.bundle.is_none() || world.sources.is_empty() {
+                    continue;
+                }
+                let eligible: Vec<usize> = (0..world.sources.len())
+                    .filter(|i| {
+                        let s = &world.sources[*i];
+                        !s.use_alias
+                            && !s.bare
+                            && !s.broken
+                            && !(world.config.bundle.as_deref() == Some("luau")
+                                && gen::is_module_folder_file(&s.path))
+                    })
+                    .collect();
+                if eligible.is_empty() {
+                    continue;
+                }
+                let i = *rh.pick(&eligible);
+                let id = world.next_id;
+                world.next_id += 1;
+                let mut ext = WSource {
+                    path: format!("shared/late_{}.lua", id),
+                    body_index: rh.below(corpus::BODIES.len()),
+                    version: 0,
+                    requires: Vec::new(),
+                    broken: false,
+                    id,
+                    use_alias: false,
+                    bare: false,
+                };
+                new_ops.push(Op::Add {
+                    path: ext.path.clone(),
+                    body: Body::Text(world.render(&ext)),
+                });
+                let mut s = world.sources[i].clone();
+                s.requires.push(ext.path.clone());
+                s.version += 1;
+                let body = world.render(&s);
+                world.sources[i] = s.clone();
+                new_ops.push(Op::Edit {
+                    path: s.path,
+                    body: Body::Text(body),
+                });
+                new_ops.push(Op::Pass);
+                ext.version += 1;
+                new_ops.push(Op::Edit {
+                    path: ext.path.clone(),
+                    body: Body::Text(world.render(&ext)),
+                });
+                world.externals.push(ext);
+            }
             96 => {
                 // a required `x.lua` gets a higher-priority sibling `x.luau`, or is itself
                 // renamed to `x.luau` (requires written without extension re-resolve)
